@@ -116,6 +116,7 @@ func loadRaw(repo string, overlay map[string][]byte) (*Program, error) {
 	}
 	sort.Slice(p.All, func(i, j int) bool { return p.All[i].PkgPath < p.All[j].PkgPath })
 	desugarSliceIterators(p.All)
+	desugarForwardingClosures(p.All)
 	indexFuncAliases(p.All)
 	return p, nil
 }
